@@ -80,6 +80,10 @@ func C03GenScalar(t *rapid.T, label string) (Hex, string) {
 // component to E[4] (the points that represent ristretto255 elements).
 func C03GenPoint(t *rapid.T, label string, cheap, even bool) PointSpec {
 	ps := GenPointSpec(t, label, cheap)
+	if rapid.IntRange(0, 13).Draw(t, label+"_isB") == 0 {
+		// the base point itself (the harness then hands the library its exported object in some of the cases)
+		return PointSpec{A: Hex{1}, J: 0, Cls: "prime-order/basepoint"}
+	}
 	if rapid.IntRange(0, 15).Draw(t, label+"_neg") == 0 && !ps.IsSmallOrder() {
 		// a "negative" discrete log: L - a (same cost class as a large scalar)
 		a := new(big.Int).Sub(ref.L, ps.AModL())
